@@ -884,8 +884,10 @@ namespace pl
                         if (!r.empty())
                         {
                             w.space->copyFromReals(g.get(), r);
-                            dv = std::min(dv, w.space->distance(last, g.get()));
+                            dv = std::isfinite(dv) ? std::max(dv, w.space->distance(last, g.get())) : w.space->distance(last, g.get());
                         }
+                    // (the FARTHEST usable goal state: informed-tree planners register the goal states one by one and measure
+                    // the difference to the closest goal they hold so far, which may be any of them)
                     if (std::isfinite(dv)) upper = std::max(upper, dv);
                 }
                 if (!(sol.difference_ <= upper + tol && sol.difference_ >= want - gr->getThreshold() - tol))
